@@ -101,6 +101,21 @@ def run_impl(histories, profile="debug", snap=False, timeout=600, exe=None, env=
             part[hid] = [(todo[0][1][0] if todo[0][1] else "", [])]
             done_ids = [hid]
         crashed = done_ids[-1]
+        if rc == "timeout":
+            # a loaded machine can make a healthy batch overrun: the suspect history alone, with a generous limit, decides
+            single = [h for h in todo if h[0] == crashed]
+            try:
+                p2 = subprocess.run(args, input=format_histories(single), capture_output=True, text=True, timeout=300,
+                                    env=env, errors="replace")
+                if p2.returncode == 0:
+                    part.update(parse_output(p2.stdout))
+                    res.update(part)
+                    idx = [h for h, _ in todo].index(crashed)
+                    todo = todo[idx + 1:]
+                    crashes -= 6
+                    continue
+            except subprocess.TimeoutExpired:
+                pass
         ops = part[crashed]
         if not ops:
             ops.append(("", []))
